@@ -333,6 +333,9 @@ func (its *PushPullHandler) processSubscribeOrCreate(code pushPullCase) errors.O
 		default:
 		}
 	}
+	if its.datatypeDoc == nil { // a plain push-pull naming a datatype the server does not have
+		return errors.PushPullNoDatatypeToSubscribe.New(its.ctx.L(), its.Key)
+	}
 	return its.initClientInfoWithDatatypeDoc()
 }
 
